@@ -16,7 +16,7 @@ structure Alg where
   deriving Repr, DecidableEq
 
 /-- "the handler of the nearest ancestor type that defines one" -/
-def resolve (defined : List String) (mro : Mro) : Option String :=
+def resolve {α : Type} [BEq α] (defined : List α) (mro : List α) : Option α :=
   mro.find? (fun h => defined.contains h)
 
 def buildTable (a : Alg) (types : List Mro) : List (Option String) :=
